@@ -15,6 +15,8 @@ macro_rules! push_unchecked {
     ($buf:ident <- $bytes:expr) => {
         {
             let (buf_len, bytes_len) = ($buf.len(), $bytes.len());
+            #[cfg(all(ohkami_verif, not(ohkami_verif_nocap)))]
+            assert!(buf_len + bytes_len <= $buf.capacity(), "ohkami_verif: push_unchecked beyond reserved capacity ({} + {} > {})", buf_len, bytes_len, $buf.capacity());
             std::ptr::copy_nonoverlapping(
                 $bytes.as_ptr(),
                 $buf.as_mut_ptr().add(buf_len),
